@@ -402,10 +402,16 @@ class _ScoreMatrix:
 
     @classmethod
     def multiply(cls, mask, reference_mask):
+        dtype = np.result_type(mask, reference_mask)
+        if dtype.kind in 'iub':
+            # The score is a sum over T products: small integer types
+            # (e.g. int8 hard masks) would wrap around, bool would saturate.
+            dtype = np.promote_types(dtype, np.int64)
         score_matrix = np.einsum(
             'K...T,k...T->...kK',
             mask.conj(),
             reference_mask,
+            dtype=dtype,
         )
         return score_matrix
 
